@@ -3,7 +3,7 @@ from common import *
 
 RULE = ("sequences of 0-40 strings (empty, repeated, high bytes, long) added to a fresh STRTAB section in all 4 "
         "configurations, every returned index re-read after every later addition (a third of the sequences also add strings by a pointer into the table itself: add_string( get_string( i ) ), whole strings and suffixes), plus lookups at size-1, size, size+1, "
-        "2^32-1 and random indices; raw tables with an unterminated tail are installed with set_data and probed the same way. "
+        "2^32-1 and random indices; raw tables with an unterminated tail are installed with set_data and probed the same way; a family of sequences runs through ONE accessor object kept alive while the table is replaced by another of exactly the same size. "
         "Non-trivial = at least 3 additions or a raw table with an unterminated tail.")
 ASSUMPTIONS = ["table size below 2^32", "strings are NUL-free (C strings)"]
 KEEP_PREFIX = 4
@@ -25,7 +25,7 @@ def meta_from_lines(lines):
     table = b""        # the table as the specification has it, to know which string a self-referring addition names
     for l in lines:
         t = l.split()
-        if t[0] == "stradd":
+        if t[0] in ("stradd", "straddk"):
             sv = bytes.fromhex(t[2]) if t[2] != "-" else b""
             ops.append(("add", sv))
             table = (table or b"\0") + sv + b"\0"
@@ -38,7 +38,7 @@ def meta_from_lines(lines):
                 table = table + sv + b"\0"
             else:
                 ops.append(("absent",))
-        elif t[0] == "strget":
+        elif t[0] in ("strget", "strgetk"):
             ops.append(("get", int(t[2], 0)))
         elif t[0] == "dset":
             table = bytes.fromhex(t[2]) if t[2] != "-" else b""
@@ -48,9 +48,17 @@ def meta_from_lines(lines):
     return {"ops": ops}
 
 
-def mk_case(cid, cfg, ops):
-    lines = ["ctor plain", "create %s %s" % cfg, "addsec " + hx(b".strtab"), "secset 2 type 3"]
+def mk_case(cid, cfg, ops, handle=False):
+    """[handle]: every lookup and addition goes through ONE accessor object created at the start and kept alive
+    (otherwise a new accessor is made for each operation)"""
+    lines = ["ctor plain", "create %s %s" % cfg, "addsec " + hx(b".strtab"), "secset 2 type 3"] + (["strnew 0 2"] if handle else [])
+    if handle:
+        ops = [(("addk",) + o[1:2]) if o[0] == "add" else (("getk",) + o[1:2]) if o[0] == "get" else o for o in ops]
     for o in ops:
+        if o[0] == "addk":
+            lines.append("straddk 0 " + hx(o[1])); continue
+        if o[0] == "getk":
+            lines.append("strgetk 0 %d" % o[1]); continue
         if o[0] == "addself":
             lines.append("straddself 2 %d" % o[1])
         elif o[0] == "add":
@@ -179,11 +187,33 @@ def generate(rng, tier):
                 ops.append(("get", ix))
             ops.append(("data",))
         cases.append(mk_case("r%d" % i, cfg, ops))
+    # one long-lived accessor: additions and lookups through it, then the table is REPLACED by one of exactly the same
+    # size (set_data of the same length: new buffer, same size) and looked up again through the same accessor
+    for i in range(40 if tier == "quick" else 400):
+        cfg = CFGS[i % 4]
+        ops, tab, sent = [], b"", []
+        for j in range(rng.randint(1, 8)):
+            sv = rstr(rng)
+            ops.append(("add", sv)); tab = (tab or b"\0") + sv + b"\0"; sent.append(len(tab) - len(sv) - 1)
+            ops.append(("get", rng.choice(sent)))
+        for _ in range(rng.randint(1, 3)):
+            # same size, other strings: permute the bytes between the NULs / rewrite letters, keep the length
+            body = bytes((c + 1) % 256 or 1 if c else 0 for c in tab[1:-1])
+            tab = b"\0" + body + b"\0"
+            ops.append(("raw", tab))
+            for ix in sorted(set([0, 1, len(tab) - 1, len(tab)] + [rng.randint(0, len(tab)) for _ in range(4)])):
+                ops.append(("get", ix))
+            if rng.random() < 0.5:
+                sv = rstr(rng); ops.append(("add", sv)); tab = tab + sv + b"\0"
+                ops.append(("get", len(tab) - len(sv) - 1))
+        ops.append(("data",))
+        cases.append(mk_case("k%d" % i, cfg, ops, handle=True))
     return cases
 
 
 def distribution(cases):
-    d = {"adds": 0, "gets": 0, "raw_tables": 0, "unterminated_tails": 0, "empty_strings": 0, "max_len": 0}
+    d = {"adds": 0, "gets": 0, "raw_tables": 0, "unterminated_tails": 0, "empty_strings": 0, "max_len": 0,
+         "cases_through_one_long_lived_accessor": sum(1 for c in cases if c.id.startswith("k"))}
     for c in cases:
         for o in c.meta["ops"]:
             if o[0] == "add":
